@@ -216,16 +216,23 @@ class Reporter:
 # ------------------------------------------------------------------ oracle: validity
 
 def xsd_records(blob):
-    errs = xsdoracle.errors(blob, with_paths=True) or set()
+    """-> {(message, location class)}; location class = last three steps of the element path without
+    positional predicates (xsdoracle appends it as ' @a/b/c')."""
+    errs = xsdoracle.errors(blob) or set()
     out = set()
     for e in errs:
-        msg, _, path = e.rpartition(" @")
-        out.add((msg, re.sub(r"\[\d+\]", "", path)))
+        if " @" in e:
+            msg, _, loc = e.rpartition(" @")
+        else:
+            msg, loc = e, ""
+        loc = re.sub(r"\s*\[.*$", "", loc)
+        loc = re.sub(r"[^A-Za-z0-9_/]", "", loc)
+        out.add((msg, loc))
     return out
 
 
 def xsd_key(msg, path, root):
-    segs = [s.split(":")[-1] for s in path.split("/") if s]
+    segs = [s for s in path.split("/") if s]
     tail = "/".join(segs[-3:])
     if segs and segs[-1] in ("axId", "crossAx") and "xs:unsignedInt" in msg and "attribute 'val'" in msg:
         neg = [el.get("val") for el in root.iter(C + "axId", C + "crossAx") if (el.get("val") or "").startswith("-")]
